@@ -375,6 +375,17 @@ func runC11(p *Prog, l *Ledger) {
 			// removed element is a captured variable / parameter (the element given to the eviction builder)
 			arg := AccessPathThroughClosures(c.Args[0])
 			_, isParam := arg.Root.(*ssa.Parameter)
+			if isParam && len(arg.Sel) > 0 {
+				// a method value of a small carrier struct (&eviction{q, e}).evict: name the element in the frame that built it
+				if frs := p.creationFrames(f); len(frs) > 0 {
+					for _, fr := range frs {
+						arg = p.OuterAP(c.Args[0], fr)
+						if _, isParam = arg.Root.(*ssa.Parameter); !isParam || len(arg.Sel) != 0 {
+							break
+						}
+					}
+				}
+			}
 			l.Check(okLock && isParam && len(arg.Sel) == 0, "O2", key, p.At(ins), "removes exactly the list element it was built for, under the queue's exclusive mutex",
 				fmt.Sprintf("eviction does not remove exactly its own element under the queue mutex (lock held: %v, element: %s)", okLock, arg))
 		})
@@ -462,7 +473,14 @@ func runC11(p *Prog, l *Ledger) {
 			}
 			// ordOnPath: the ordering the config literal holds when the path reaches the call:
 			// "" = unset (zero value), "?" = not a constant of the ordering type
+			zeroCfg := false
+			if c, ok := strip(cfgArg, false).(*ssa.Const); ok && c.Value == nil {
+				zeroCfg = true // QueueLimiterConfig{}: the zero value, no ordering set
+			}
 			ordOnPath := func(pa *Path) string {
+				if zeroCfg {
+					return ""
+				}
 				if cfgAlloc == nil {
 					return "?"
 				}
